@@ -102,6 +102,11 @@ pub fn handle_watch(conn: &mut Connection, parts: &[RespFrame], storage: &Arc<St
         return Ok(RespFrame::error("ERR WATCH inside MULTI is not allowed"));
     }
     
+    // A refused WATCH watches nothing: check every argument before the first key is registered
+    if parts[1..].iter().any(|part| !matches!(part, RespFrame::BulkString(Some(_)))) {
+        return Ok(RespFrame::error("ERR invalid key format"));
+    }
+    
     // Add keys to watch set with current modification counters
     for i in 1..parts.len() {
         match &parts[i] {
@@ -127,9 +132,7 @@ pub fn handle_watch(conn: &mut Connection, parts: &[RespFrame], storage: &Arc<St
                     }
                 }
             }
-            _ => {
-                return Ok(RespFrame::error("ERR invalid key format"));
-            }
+            _ => {} // refused above
         }
     }
     
